@@ -277,7 +277,7 @@ pub fn run(ctx: &Ctx) {
     let kinds: Vec<String> = probe.wire_log.iter().map(|d| if d.data.first() == Some(&0xff) { format!("hs{}", d.data[12]) } else { format!("sealed({})", d.data.len()) }).collect();
     ctx.extra("capture_2_nodes", json!(kinds));
     drop(probe);
-    let probe_seconds: u32 = ctx.tier.pick(140, 400);
+    let probe_seconds: u32 = ctx.tier.pick(200, 400);
     let edits: Vec<Edit> = ctx.tier.pick(
         vec![Edit::Verbatim, Edit::Flip(0, 2), Edit::Flip(40, 0), Edit::Truncate(23)],
         vec![Edit::Verbatim, Edit::Flip(0, 0), Edit::Flip(0, 2), Edit::Flip(3, 7), Edit::Flip(12, 1), Edit::Flip(40, 0), Edit::Flip(65535, 7), Edit::Truncate(23), Edit::Truncate(100), Edit::Random(7)],
@@ -319,7 +319,7 @@ pub fn run(ctx: &Ctx) {
     ctx.subspace(&format!("2-node mesh: {} captured datagrams x 12 offsets x sources x targets x edits", n2), total, true);
 
     // 3-node meshes: sampled, includes "another peer" as claimed source
-    let n3: u32 = ctx.tier.pick(500, 6_000);
+    let n3: u32 = ctx.tier.pick(1_500, 12_000);
     ctx.proptest(
         "pt-3node",
         n3,
